@@ -21,7 +21,7 @@ func (e *Engine) execInstr(st *State, fr *Frame, in ssa.Instruction) {
 		if obj := x.Object(); obj != nil {
 			if _, isVar := obj.(*types.Var); isVar {
 				ref := x
-				if _, isConst := x.X.(*ssa.Const); isConst && x.Expr != nil && x.Expr.Pos() == obj.Pos() {
+				if cst, isConst := x.X.(*ssa.Const); isConst && cst.IsNil() && x.Expr != nil && x.Expr.Pos() == obj.Pos() {
 					// go/ssa records the defining occurrence of "v := <composite literal / make>" with
 					// the zero value; the variable's real value is what its later references show
 					for _, b := range fr.fn.Blocks {
